@@ -158,7 +158,7 @@ def exec_watch_case(case: dict) -> dict:
             if i + 1 >= len(wps):
                 break
             a = {"state": wps[i + 1]["state"], "disk": disk_ev(wps[i + 1]["disk"]), "rc": int(wps[i + 1]["rc"]),
-                 "dup": run.get("dups", [])}
+                 "dup": run.get("dups", []), "globprod": run.get("globprod", [])}
             w = World.__new__(World)
             w.root = PPath(snap["dir"])
             w.clock = world.clock + 5000 + i
